@@ -26,6 +26,21 @@ inductive Resp (α : Type) where
   | panic (site : String)
   deriving Repr, Inhabited
 
+/-- which of the proposed C18 repairs the source has (`Generated/ViewsFixes.lean`, re-extracted from
+the source text on every run) -/
+structure Fixes where
+  /-- `notes/fix-C18-page-overflow.diff`: saturating page arithmetic in the children / parents accessors -/
+  pageOverflow : Bool
+  /-- `notes/fix-C18-null-outpoint.diff`: `r::inscription` / `Server::sat` treat the null outpoint like
+  the unbound outpoint -/
+  nullOutpoint : Bool
+  deriving Repr, Inhabited, DecidableEq
+
+/-- the unchanged tree -/
+def Fixes.none : Fixes := ⟨false, false⟩
+/-- both patches applied -/
+def Fixes.all : Fixes := ⟨true, true⟩
+
 /-- what the node says about one outpoint -/
 structure NodeOut where
   value : Nat
@@ -220,16 +235,17 @@ structure RInsView where
   address : Option (List UInt8)
   deriving Repr, Inhabited
 
-/-- `r::inscription` → `GET /r/inscription/<id>`.  Only the unbound outpoint is special-cased:
-for an inscription at the null outpoint the handler asks for the all-zero transaction and answers
-404.  The stored charms are reported as they are (no `Lost`). -/
-def rInscription (st : State) (id : InscriptionId) (node : Option NodeOut) : Resp RInsView :=
+/-- `r::inscription` → `GET /r/inscription/<id>`.  Unrepaired, only the unbound outpoint is
+special-cased: for an inscription at the null outpoint the handler asks for the all-zero
+transaction and answers 404; with `fx.nullOutpoint` the null outpoint is answered like the unbound
+one (no output: no value, no address).  The stored charms are reported as they are (no `Lost`). -/
+def rInscription (fx : Fixes) (st : State) (id : InscriptionId) (node : Option NodeOut) : Resp RInsView :=
   match AL.get st.id2seq id with
   | none => .notFound
   | some seq =>
     match st.entries[seq]?, AL.get st.seq2sp seq with
     | some e, some sp =>
-      if sp.outpoint == OutPoint.unbound then
+      if sp.outpoint == OutPoint.unbound || (fx.nullOutpoint && sp.outpoint == OutPoint.null) then
         .ok ⟨id, e.number, e.height, e.fee, e.sat, sp, e.timestamp, e.charms, none, none⟩
       else match (if sp.outpoint == OutPoint.null then none else node) with
         | none => .notFound
@@ -275,11 +291,11 @@ def childIds (st : State) (seq : Nat) : Option (List InscriptionId) := idsOfSeqs
 
 /-- `get_children_by_sequence_number_paginated` behind `GET /children/<id>[/<page>]` (JSON) and
 `GET /r/children/<id>[/<page>]` -/
-def childrenPage (st : State) (id : InscriptionId) (page : Nat) : Resp (Page InscriptionId) :=
+def childrenPage (fx : Fixes) (st : State) (id : InscriptionId) (page : Nat) : Resp (Page InscriptionId) :=
   match entryOfId st id with
   | none => .notFound
   | some e =>
-    match pageChecked (childrenOf st e.seq) PAGE page with
+    match pageKids fx.pageOverflow (childrenOf st e.seq) PAGE page with
     | .panic s => .panic s
     | .err _ => .internal
     | .ok (seqs, more) =>
@@ -288,11 +304,11 @@ def childrenPage (st : State) (id : InscriptionId) (page : Nat) : Resp (Page Ins
       | none => .panic "unwrap"
 
 /-- `get_parents_by_sequence_number_paginated` behind `GET /r/parents/<id>[/<page>]` -/
-def parentsPage (st : State) (id : InscriptionId) (page : Nat) : Resp (Page InscriptionId) :=
+def parentsPage (fx : Fixes) (st : State) (id : InscriptionId) (page : Nat) : Resp (Page InscriptionId) :=
   match entryOfId st id with
   | none => .notFound
   | some e =>
-    match pageChecked e.parents PAGE page with
+    match pageKids fx.pageOverflow e.parents PAGE page with
     | .panic s => .panic s
     | .err _ => .internal
     | .ok (seqs, more) =>
@@ -310,18 +326,18 @@ def relViews (st : State) (ids : List InscriptionId) : Resp (List RelView) :=
     | .panic s, _ => .panic s) (.ok [])
 
 /-- `GET /r/children/<id>/inscriptions[/<page>]` -/
-def childInscriptionsPage (st : State) (id : InscriptionId) (page : Nat) : Resp (Page RelView) :=
-  match childrenPage st id page with
+def childInscriptionsPage (fx : Fixes) (st : State) (id : InscriptionId) (page : Nat) : Resp (Page RelView) :=
+  match childrenPage fx st id page with
   | .ok p => (match relViews st p.items with
     | .ok vs => .ok ⟨vs, p.more, page⟩ | .notFound => .notFound | .internal => .internal | .panic s => .panic s)
   | .notFound => .notFound | .internal => .internal | .panic s => .panic s
 
 /-- `GET /r/parents/<id>/inscriptions[/<page>]` (no `u32` conversion of the page here) -/
-def parentInscriptionsPage (st : State) (id : InscriptionId) (page : Nat) : Resp (Page RelView) :=
+def parentInscriptionsPage (fx : Fixes) (st : State) (id : InscriptionId) (page : Nat) : Resp (Page RelView) :=
   match entryOfId st id with
   | none => .notFound
   | some e =>
-    match pageChecked e.parents PAGE page with
+    match pageKids fx.pageOverflow e.parents PAGE page with
     | .panic s => .panic s
     | .err _ => .internal
     | .ok (seqs, more) =>
@@ -392,16 +408,18 @@ def satSatpoint (st : State) (sat : Nat) : Option SatPoint :=
   | some sp => some sp
   | none => (seqsOfSat st sat).head?.bind (fun s => AL.get st.seq2sp s)
 
-/-- `Server::sat` (JSON), index-derived fields.  A satpoint at the null outpoint makes the handler
-ask for the all-zero transaction: `could not get transaction for sat` (500). -/
-def satView (st : State) (sat : Nat) (node : Option NodeOut) : Resp SatView :=
+/-- `Server::sat` (JSON), index-derived fields.  Unrepaired, a satpoint at the null outpoint makes
+the handler ask for the all-zero transaction: `could not get transaction for sat` (500); with
+`fx.nullOutpoint` it is answered like the unbound outpoint (no address). -/
+def satView (fx : Fixes) (st : State) (sat : Nat) (node : Option NodeOut) : Resp SatView :=
   match idsOfSeqs st (seqsOfSat st sat) with
   | none => .panic "unwrap"
   | some ids =>
     match satSatpoint st sat with
     | none => .ok ⟨ids, none, none, satCharms sat⟩
     | some sp =>
-      if sp.outpoint == OutPoint.unbound then .ok ⟨ids, some sp, none, satCharms sat⟩
+      if sp.outpoint == OutPoint.unbound || (fx.nullOutpoint && sp.outpoint == OutPoint.null) then
+        .ok ⟨ids, some sp, none, satCharms sat⟩
       else match (if sp.outpoint == OutPoint.null then none else node) with
         | none => .internal
         | some o => .ok ⟨ids, some sp, if o.addressable then some o.script else none, satCharms sat⟩
